@@ -224,6 +224,7 @@ class Model(object):
         if self.h is not None:
             self.objval[k] += self.h(remove_scaling(self.xbase + self.points[k, :], self.scaling_changes), *self.argsh)
         self.nsamples[k] += 1
+        self.factorisation_current = False  # kopt may move below, and the factorisation is centred on xopt
 
         # make sure kopt is always the best value we have (ignoring NaN values, which np.argmin would select)
         objs = self.objval[:self.npt()]
